@@ -218,7 +218,9 @@ impl Engine for Arith {
         vec!["C01", "C02", "C06", "C07", "C18"]
     }
     fn op_name(&self, prop: &str, op: u16) -> String {
-        if op == PROGRAM {
+        if op == MISC {
+            "misc".to_string()
+        } else if op == PROGRAM {
             "wrapping_program".to_string()
         } else if prop == "C18" {
             W_NAMES[op as usize % W_NAMES.len()].to_string()
@@ -227,7 +229,9 @@ impl Engine for Arith {
         }
     }
     fn op_from_name(&self, prop: &str, s: &str) -> Option<u16> {
-        if s == "wrapping_program" {
+        if s == "misc" {
+            Some(MISC)
+        } else if s == "wrapping_program" {
             Some(PROGRAM)
         } else if prop == "C18" {
             W_NAMES.iter().position(|n| *n == s).map(|i| i as u16)
@@ -238,6 +242,32 @@ impl Engine for Arith {
     fn strategy(&self, prop: &str, stratum: Option<u16>) -> BoxedStrategy<Case> {
         if prop == "C18" {
             return program_strategy(stratum);
+        }
+        if prop == "C11m" {
+            // miscellaneous operations exercised by the profile pair only
+            return (layout_or(stratum), pick(6), ing(), ing(), any::<u128>())
+                .prop_map(|(lay, which, ia, ib, r)| {
+                    let l = L::from_idx(lay as usize);
+                    let a = pattern(l, ia);
+                    let (sel, b) = match which {
+                        0 => {
+                            let kind = (r % 12) as usize;
+                            let kl = vcore::INTS[kind].as_l();
+                            let amt: i128 = match (r >> 8) % 6 {
+                                0 | 1 => ((r >> 16) % l.w as u128) as i128,
+                                2 => l.w as i128 + ((r >> 16) % 5) as i128 - 2,
+                                3 => -(((r >> 16) % (2 * l.w as u128)) as i128) - 1,
+                                4 => (r >> 16) as i128,
+                                _ => ((r >> 16) % 300) as i128,
+                            };
+                            ((kind as u128) << 8 | ((r >> 100) & 1) << 16 | ((r >> 104) % 6) << 20, kl.wrap(&Big::from_i128(amt)))
+                        }
+                        3 | 4 => (which as u128 | ((r % 3) << 8) | ((r >> 8) & 3) << 12, pattern(l, ib)),
+                        w => (w as u128, pattern(l, ib)),
+                    };
+                    Case { op: MISC, lay, a, b, c: sel, ..Case::default() }
+                })
+                .boxed();
         }
         let ops = ops_of(prop);
         (layout_or(stratum), pick(ops.len()), ing(), ing(), pick(DEP_TABLE.len()), any::<u128>())
@@ -254,6 +284,9 @@ impl Engine for Arith {
     }
     fn budget(&self, prop: &str, tier: Tier) -> Budget {
         let strata: Vec<u16> = (0..NLAY as u16).collect();
+        if prop == "C11m" {
+            return Budget { random: 100_000_000, per_stratum: 100_000, strata };
+        }
         if prop == "C18" {
             return match tier {
                 Tier::Quick => Budget { random: 600_000, per_stratum: 400, strata },
@@ -424,8 +457,14 @@ impl Engine for Arith {
         classify(prop, l, op, a, b, &av, &bv_raw, &ex, fits, &mut ev);
         ev
     }
+    fn pair_gens(&self) -> Vec<&'static str> {
+        vec!["C01", "C02", "C06", "C07", "C18", "C11m"]
+    }
     fn exec_raw(&self, _prop: &str, c: &Case) -> vcore::out::Outs {
         let l = L::from_idx(c.lay as usize);
+        if c.op == MISC {
+            return exec_misc(c.lay, c.c, c.a & l.mask(), c.b);
+        }
         if c.op == PROGRAM {
             exec_program(c.lay, c.a & l.mask(), &c.prog, &c.s)
         } else {
